@@ -106,6 +106,7 @@ mutual
     | exit (n : Option Nat)                -- `exit [n]`
     | setE (on : Bool)                     -- `set -e` / `set +e`
     | setM (on : Bool)                     -- `set -m` / `set +m` (job control)
+    | setP (on : Bool)                     -- `set -o pipefail` / `set +o pipefail`
     | call (name : Name) (nargs : Nat)     -- a command name resolved by the search order, with arguments
     | setParams (n : Nat)                  -- `set -- w1 … wn`: the positional parameters of this context
     | freeze (name : Name)                 -- `typeset -fr name`: makes the function read-only
@@ -299,6 +300,7 @@ mutual
       | .exit n => finishSimple s (.break_ (.exit n))
       | .setE on => finishSimple { s with errexit := on, status := 0 } .continue_
       | .setM on => finishSimple { s with monitor := on, status := 0 } .continue_
+      | .setP on => finishSimple { s with pipefail := on, status := 0 } .continue_
       | .unknown => finishSimple { s with status := 127 } .continue_
       -- `execute_absent_target`: the status of the last command substitution of the assignments,
       -- else of the redirections, else of the words, else zero
